@@ -91,7 +91,7 @@ class Ctx:
         self.trusted = set()
         self.solver = z3.Solver()
         self.solver.set('rlimit', 3000000)
-        self.solver.set('timeout', 1500)
+        self.solver.set('timeout', 30000)   # safety net only: the deterministic rlimit is the effective bound
         self.full_solver = z3.Solver()
         self.full_solver.set('rlimit', 400000)
         self.nquant = 0
@@ -464,6 +464,9 @@ class Frame:
             v = self.env.get(e.id)
             if isinstance(v, Opaque) and v.cls == 'exception':
                 kind = v.attrs.get('kind', 'Exception')
+                if v.attrs.get('site') is not None:
+                    # re-raise of a caught exception: it is still the original failure
+                    raise SymRaise(kind, v.attrs['site'])
             else:
                 kind = e.id
         raise SymRaise(kind, getattr(st, 'lineno', None))
@@ -591,6 +594,8 @@ class Frame:
         k = O.simp(k)
         if isinstance(k, (int, str, bool, float, tuple)) or k is None:
             return k
+        if isinstance(k, (LibFn, DType)):
+            return ('libref', k.name)   # a class / dtype object used as a key
         raise Unsupported("symbolic dict key")
 
     def st_With(self, st):
@@ -617,7 +622,7 @@ class Frame:
                     if self.handler_matches(h, e.kind):
                         handled = True
                         if h.name:
-                            self.env[h.name] = Opaque('exc', 'exception', {'kind': e.kind})
+                            self.env[h.name] = Opaque('exc', 'exception', {'kind': e.kind, 'site': e.site})
                         old = getattr(self, '_active_exc', None)
                         self._active_exc = e.kind
                         try:
